@@ -194,6 +194,19 @@ Definition flush_text (cur : list tentry) (secs : list section) : list section :
   | _ => if any_nonnull cur then mk_text cur :: secs else secs
   end.
 
+(* lines[offset - 1] is blank (true when there is no line above) *)
+Definition line_above_blank (lines : list lf) (off : nat) : option bool :=
+  match off with
+  | 0 => Some true
+  | S p => match nth_error lines p with Some x => Some (blank x) | None => None end
+  end.
+(* has_next... and _is_empty_line(lines[i]) *)
+Definition blank_at (lines : list lf) (i : nat) : bool :=
+  match nth_error lines i with Some x => blank x | None => false end.
+(* has_next... and not blank and lines[i].startswith(" ") *)
+Definition indented_at (lines : list lf) (i : nat) : bool :=
+  match nth_error lines i with Some x => negb (blank x) && (1 <=? sp x) | None => false end.
+
 Definition g_step (lines : list lf) (o : gopts) (st : gst) : outcome gst :=
   let off := g_off st in
   match nth_error lines off with
@@ -206,19 +219,11 @@ Definition g_step (lines : list lf) (o : gopts) (st : gst) : outcome gst :=
     else match gadm l with
     | ANone => plain
     | a =>
-      match (match off with
-             | 0 => Some true
-             | S p => match nth_error lines p with Some x => Some (blank x) | None => None end
-             end) with
+      match line_above_blank lines off with
       | None => Fail IndexError
       | Some above =>
-        let n1 := nth_error lines (off + 1) in
-        let n2 := nth_error lines (off + 2) in
-        let blank_below := match n1 with Some x => blank x | None => false end in
-        let ilb := match n1 with Some x => negb (blank x) && (1 <=? sp x) | None => false end in
-        let ilsb := match n2 with Some x => negb (blank x) && (1 <=? sp x) | None => false end in
-        if negb (ilb || ilsb) then plain
-        else if negb above || (ilsb && blank_below) then plain
+        if negb (indented_at lines (S off) || indented_at lines (S (S off))) then plain
+        else if negb above || (indented_at lines (S (S off)) && blank_at lines (S off)) then plain
         else match a with
         | ASec k =>
             let secs1 := flush_text (g_cur st) (g_secs st) in
@@ -360,12 +365,12 @@ Definition n_step (lines : list lf) (st : nst) : outcome nst :=
         let secs1 := n_append (n_secs st) (n_cur st) (n_adm st) in
         match nkind l with
         | Some k =>
-            match n_reader lines k (off + 2) with
+            match n_reader lines k (S (S off)) with
             | Err e => Fail e
             | Ok (n, off') =>
                 Next (mkNst (S off') false [] None (if 0 <? n then SSec k off n :: secs1 else secs1))
             end
-        | None => Next (mkNst (off + 2) false [] (Some off) secs1)
+        | None => Next (mkNst (S (S off)) false [] (Some off) secs1)
         end
       else Next (mkNst (S off) false verb (n_adm st) (n_secs st))
     end
@@ -467,6 +472,40 @@ Definition cleandoc_post (lines : list lf) : bool :=
   | l :: _ => negb (blank l)
   end.
 
+(* consistency of the features of one line: the empty string is blank *)
+Definition lf_wf (l : lf) : bool := implb (null l) (blank l).
+Definition lines_wf (lines : list lf) : bool := forallb lf_wf lines.
+
+(* ================= what "plain text" gives (statements of the plain-text theorems) ================= *)
+(* lines a .. a+n-1, verbatim *)
+Definition idx_text (a n : nat) : list (nat * bool) := map (fun i => (i, false)) (seq a n).
+(* the first non-blank line has a ":" *)
+Fixpoint fnc_lines (ls : list lf) : bool :=
+  match ls with
+  | [] => false
+  | l :: r => if blank l then fnc_lines r else colon l
+  end.
+(* number of leading blank lines *)
+Fixpoint leading_blank (ls : list lf) : nat :=
+  match ls with
+  | [] => 0
+  | l :: r => if blank l then S (leading_blank r) else 0
+  end.
+(* known finding C12-F1: the docstring is empty (every line blank) *)
+Definition KnownGap_F1 (lines : list lf) : bool := forallb blank lines.
+
+(* ================= well-formed section skeletons ================= *)
+(* n = number of lines.  Text lines exist; an admonition has a header above a non-empty indented block that lies
+   inside the docstring; every other section has at least one item (`if section:`) and an existing header line. *)
+Definition wf_section (n : nat) (s : section) : bool :=
+  match s with
+  | SText ls _ _ => forallb (fun ib => fst ib <? n) ls
+  | SAdm h f l i => (h <? f) && (f <=? l) && (l <? n) && (1 <=? i)
+  | SNAdm h ls => (h <? n) && forallb (fun ib => fst ib <? n) ls
+  | SSec _ h items => (1 <=? items) && (h <? n)
+  end.
+Definition wf_sections (n : nat) (secs : list section) : bool := forallb (wf_section n) secs.
+
 (* ================= s-expression interface ================= *)
 Definition dec_skind (n : nat) : option skind :=
   match n with
@@ -536,10 +575,12 @@ Definition enc_section (s : section) : sexp :=
   | SSec k h n => SList [SStr (enc_skind k); of_nat h; of_nat n]
   end.
 Definition enc_err (e : err) : sexp := SStr (match e with IndexError => "IndexError" | OutOfFuel => "OutOfFuel" end).
-Definition enc_result (post : bool) (r : result (list section)) : sexp :=
+(* the two flags are the hypotheses of the theorems evaluated on this input: cleandoc post-condition, feature consistency *)
+Definition enc_result (lines : list lf) (r : result (list section)) : sexp :=
+  let flags := SList [of_bool (cleandoc_post lines); of_bool (lines_wf lines); of_bool (KnownGap_F1 lines)] in
   match r with
-  | Ok secs => SList [SStr "ok"; of_bool post; SList (map enc_section secs)]
-  | Err e => SList [SStr "err"; of_bool post; enc_err e]
+  | Ok secs => SList [SStr "ok"; flags; SList (map enc_section secs)]
+  | Err e => SList [SStr "err"; flags; enc_err e]
   end.
 
 Definition run_C12 (s : sexp) : sexp :=
@@ -547,9 +588,9 @@ Definition run_C12 (s : sexp) : sexp :=
   | SList [SStr style; o; p; ls] =>
       match dec_gopts o, dec_parent p, as_list_of dec_lf ls with
       | Some o', Some p', Some ls' =>
-          if String.eqb style "google" then enc_result (cleandoc_post ls') (g_parse ls' o' p')
-          else if String.eqb style "numpy" then enc_result (cleandoc_post ls') (n_parse ls' o' p')
-          else if String.eqb style "sphinx" then enc_result (cleandoc_post ls') (s_parse ls')
+          if String.eqb style "google" then enc_result ls' (g_parse ls' o' p')
+          else if String.eqb style "numpy" then enc_result ls' (n_parse ls' o' p')
+          else if String.eqb style "sphinx" then enc_result ls' (s_parse ls')
           else bad_input
       | _, _, _ => bad_input
       end
